@@ -261,7 +261,7 @@ def rule_num(ctx):
     p = ctx.p
     f = p.func("indi.message.checks.number")
     V, pats = number_validator_lang(ctx)
-    ctx.floor("C13.NUM", "validator regex literals", len(pats), 4)
+    ctx.floor("C13.NUM", "validator regex literals", len(pats), 1)
     R = Lang([T.NUM_PERMISSIVE_REFERENCE], mode="fullmatch", name="INDI number syntax (permissive)")
     ok, wit, stats = included(V, R, restrict=stripped_lang())
     ctx.sample({"rule": "C13.NUM", "patterns": pats, "stats": stats, "witness": wit})
